@@ -123,6 +123,10 @@ class StmtMixin(object):
         if self.cur is None:
             return
         for t in s.targets:
+            if isinstance(t, ast.Name) and self.loops:
+                # plain assignment of a local inside a loop (flags, counters): rules that
+                # reason about loop-carried flags need the site
+                self.emit('assign', s, {'target': t.id, 'value': v, 'aug': None})
             self.bind_target(t, v, s)
 
     def st_AnnAssign(self, s):
@@ -564,6 +568,12 @@ class StmtMixin(object):
         head = self.emit('loop', node, {'kind': 'for', 'iter': it})
         exit_ = self.join_node(node, 'endloop')
         self.g.n(head).data['exit'] = exit_
+        if isinstance(it, Call) and (
+                it.fn in ('itertools.count', 'itertools.cycle') or
+                (it.fn == 'itertools.repeat' and len(it.args) < 2 and
+                 'times' not in dict(it.kwargs))):
+            # an endless iterator: the loop ends only by break / return / raise
+            self.g.n(head).data['unbounded'] = True
         self.widen(names, head)
         pre = dict(self.frame.env.vars)
         self.g.edge(head, exit_, 'exhausted')
